@@ -14,3 +14,65 @@ def read(name):
                 continue
             rows.append(line.split("\t"))
     return rows
+
+
+def _fn_of_key(key):
+    """Function part of a table key: `fn|kind#k`, `fn#k` or `fn`."""
+    if "|" in key:
+        return key.split("|", 1)[0], "|" + key.split("|", 1)[1]
+    if "#" in key and key.rsplit("#", 1)[1].isdigit() and not key.endswith("}"):
+        head, tail = key.rsplit("#", 1)
+        # closure names contain `{closure#0}`: only a trailing `#<digits>` outside braces is an ordinal
+        if head.count("{") == head.count("}"):
+            return head, "#" + tail
+    return key, ""
+
+
+def _parent_fn(name):
+    return name.split("::{closure#", 1)[0]
+
+
+class Keyed:
+    """Rows of a reviewed table keyed by their first column. `get(key)` follows a rename: when no row has the key, and the
+    table names exactly one function of the same module / impl that no longer exists in the crate and has a row with the same
+    site suffix (`|kind#k`, `#k` or none), that row is used - a renamed function keeps its reviewed reasons. Anything less
+    certain (two vanished functions, a function moved to another impl) stays unmatched and is reported by the rule."""
+
+    def __init__(self, name, fx):
+        self.name = name
+        self.rows = {r[0]: r for r in read(name)}
+        have_parents = {_parent_fn(n) for n in fx.bodies}
+        self.orphans = {}
+        for k in self.rows:
+            fn, rest = _fn_of_key(k)
+            par = _parent_fn(fn)
+            if par not in have_parents:
+                self.orphans.setdefault(par, {})[fn[len(par):] + rest] = k
+        self.followed = []
+        self.table_parents = {_parent_fn(_fn_of_key(k)[0]) for k in self.rows}
+
+    def __contains__(self, key):
+        return self.get(key) is not None
+
+    def __iter__(self):
+        return iter(self.rows)
+
+    def items(self):
+        return self.rows.items()
+
+    def get(self, key, default=None):
+        r = self.rows.get(key)
+        if r is not None:
+            return r
+        fn, rest = _fn_of_key(key)
+        par = _parent_fn(fn)
+        if par in self.table_parents or "::" not in par:
+            return default
+        prefix = par.rsplit("::", 1)[0]
+        suffix = fn[len(par):] + rest
+        cands = [o for o, sufs in self.orphans.items() if o.rsplit("::", 1)[0] == prefix and suffix in sufs]
+        if len(cands) == 1:
+            old_key = self.orphans[cands[0]][suffix]
+            self.followed.append((old_key, key))
+            return [key] + list(self.rows[old_key][1:])
+        return default
